@@ -1,5 +1,5 @@
 // CHILD-OF: src/auth.rs
-// ENCODES: auth::validate_signers, auth::validate_signatures, auth::validate_proof, auth::message_hash_to_sign, auth::epoch_by_signers_hash, WeightedSigners::hash, Proof::weighted_signers
+// ENCODES: auth::validate_signatures, auth::validate_proof, auth::message_hash_to_sign, auth::epoch_by_signers_hash, WeightedSigners::hash, Proof::weighted_signers
 // STUBS: validate_signatures -> recording stub returning an arbitrary verdict (only in the wiring obligation O2)
 // C01 (O1 signature loop, O2 wiring), C03 (i) well-formedness kernel, C08 retention window.
 use super::*;
@@ -52,36 +52,6 @@ fn well_formed(ws: &WeightedSigners, n: usize) -> bool {
         i += 1;
     }
     ok && !overflow && ws.threshold != 0 && total >= ws.threshold
-}
-
-// ------------------------------------------------------------------ C03 (i)
-fn c03_validate_signers(n: usize) {
-    let env = Env::default();
-    let ws = any_set(&env, n);
-    let r = validate_signers(&env, &ws);
-    kani::assert(r.is_ok() == well_formed(&ws, n), "VERIF:C03:a signer set is accepted exactly when it is well-formed");
-    kani::cover!(r.is_ok() || n == 0, "VERIF:reach:accepted set");
-    kani::cover!(r.is_err(), "VERIF:reach:rejected set");
-}
-// HARNESS props=C03 tier=quick profile=gw_sig mode=strict shape="N=0 signers"
-#[kani::proof]
-fn c03_validate_signers_n0() {
-    c03_validate_signers(0)
-}
-// HARNESS props=C03 tier=quick profile=gw_sig mode=strict shape="N=1; key 2 symbolic bytes, weight/threshold full u128"
-#[kani::proof]
-fn c03_validate_signers_n1() {
-    c03_validate_signers(1)
-}
-// HARNESS props=C03 tier=quick profile=gw_sig mode=strict shape="N=2"
-#[kani::proof]
-fn c03_validate_signers_n2() {
-    c03_validate_signers(2)
-}
-// HARNESS props=C03 tier=quick profile=gw_sig mode=strict shape="N=3"
-#[kani::proof]
-fn c03_validate_signers_n3() {
-    c03_validate_signers(3)
 }
 
 // ------------------------------------------------------------------ C01 O1: signature loop
@@ -199,9 +169,4 @@ fn c01_sigs_sound_n4() {
 #[kani::proof]
 fn c01_sigs_complete_n4() {
     c01_sigs_complete(4)
-}
-// HARNESS props=C03 tier=thorough profile=gw_sig4 mode=strict shape="N=4"
-#[kani::proof]
-fn c03_validate_signers_n4() {
-    c03_validate_signers(4)
 }
